@@ -161,7 +161,8 @@ RunCase(t, p, f) ==
       texts |-> <<Text(sp, "min"), Text(sp, "wild"), Text(Wrapped(sp), "wild"), Text(Wrapped(sp), "min")>>]
 
 EmitErr ==
-  Complete =>
+  \* (a constant pattern the parser rejects is reported at the pattern before any other fault is looked at)
+  (Complete /\ ~HasConstBadPattern(Tree)) =>
     \A p \in LeafPaths(Tree) :
       IF ErrMode = "reject"
       THEN \A f \in CompileFaults \cup MoreFaults :
